@@ -138,7 +138,7 @@ def hat_integral(h, a, b):
 
 class DimWiseRun:
     def __init__(self, D, lmin, lmax, version=6, rebalancing=True, boundary=True, margin=None, safety=0.1,
-                 a=None, b=None, with_hats=True, modified_basis=False, scripted=True, max_hats=None, hat_seed=0, int_domain=False):
+                 a=None, b=None, with_hats=True, modified_basis=False, scripted=True, max_hats=None, hat_seed=0, int_domain=False, continue_via='resume'):
         SA, GT, Integration, EC, _ = _imports()
         self.D, self.lmin, self.lmax0 = D, lmin, lmax
         self.a = np.array([0.0] * D if a is None else a, dtype=float)
@@ -168,6 +168,8 @@ class DimWiseRun:
                 return 0.0
         self.ec = ScriptedError() if scripted else EC()
         self.started = False
+        self.continue_via = continue_via      # 'resume': continue_adaptive_refinement; 'container': a new performSpatiallyAdaptiv call that is handed the
+        self.ncont = 0                        # object's own refinement container (documented way to continue); 'mixed': alternating
         self.cfg = dict(D=D, lmin=lmin, lmax=lmax, version=version, rebalancing=rebalancing, boundary=boundary,
                         margin=self.margin_req, safety=safety, a=list(map(float, self.a)), b=list(map(float, self.b)))
 
@@ -179,7 +181,13 @@ class DimWiseRun:
                 self.started = True
                 self.ret = self.combi.performSpatiallyAdaptiv(self.lmin, self.lmax0, self.ec, tol=-1, max_evaluations=0, print_output=False)
             else:
-                self.ret = self.combi.continue_adaptive_refinement(tol=-1, max_evaluations=0)
+                self.ncont += 1
+                via = self.continue_via if self.continue_via != 'mixed' else ('container' if self.ncont % 2 else 'resume')
+                if via == 'container':
+                    self.ret = self.combi.performSpatiallyAdaptiv(self.lmin, self.lmax0, self.ec, tol=-1, max_evaluations=0, print_output=False,
+                                                                 refinement_container=self.combi.refinement)
+                else:
+                    self.ret = self.combi.continue_adaptive_refinement(tol=-1, max_evaluations=0)
         return self.ret
 
     def intervals(self, d):
